@@ -78,13 +78,16 @@ class Kernel:
 
 
 class KInterp:
-    def __init__(self, index, consts=None, call_handlers=None, inline=True, opaque_calls=True):
+    def __init__(self, index, consts=None, call_handlers=None, inline=True, opaque_calls=True, free_syms=False):
+        self.free_syms = free_syms
         self.ix = index
         self.consts = dict(consts or {})
         self.call_handlers = dict(call_handlers or {})
         self.inline = inline
         self.opaque_calls = opaque_calls
         self.notes = []
+        self.pit = {}            # (pit, rowkey, idxmod, col) -> value written during interpretation
+        self.pit_order = []
 
     # ------------------------------------------------------------------ entry
     def run(self, fi, args=None, param_syms=None):
@@ -305,6 +308,32 @@ class KInterp:
                     v = self.eval(value_expr, st)
                 env[name] = self._select(G, v, old) if not G.is_true() else v
                 return
+            if isinstance(sl, ast.Tuple) and len(sl.elts) == 2 and self._resolve_col(sl.elts[1], st) is not None:
+                colr = self._resolve_col(sl.elts[1], st)
+                pit = self._pitname(old, t.value)
+                r = sl.elts[0]
+                mask = None
+                if isinstance(r, ast.Slice) and r.lower is None and r.upper is None:
+                    rk = OWN
+                elif isinstance(r, ast.Name) and r.id in st["loopvars"]:
+                    rk = OWN
+                else:
+                    rv = self.eval(r, st)
+                    if isinstance(rv, BExpr):
+                        rk, mask = OWN, rv
+                    elif isinstance(rv, GExpr) and rv.plain() is not None:
+                        rk = rv.plain().key()
+                    elif isinstance(rv, IndexSet):
+                        rk, mask = OWN, rv.b
+                    else:
+                        raise Unsupported("row selector of pit store %s" % U(t))
+                st2 = dict(st, mask=mask) if mask is not None else st
+                if v is None:
+                    v = self.eval(value_expr, st2)
+                if isinstance(v, PyVal) and isinstance(v.v, bool):
+                    v = GExpr.of(1 if v.v else 0)
+                self._pit_write(pit, rk, colr, self._as_num(v), G, mask)
+                return
             idx = self.eval(sl, st)
             if isinstance(idx, BExpr):
                 # numpy masked store
@@ -400,6 +429,8 @@ class KInterp:
                     return self._lift_const(self.ix.eval_const(r[2], r[1]))
                 except AnalysisError:
                     pass
+            if self.free_syms:
+                return GExpr.of(Poly.sym(e.id))
             raise Unsupported("free name %s in %s" % (e.id, st["fi"].qualname))
         if isinstance(e, ast.Attribute):
             s = U(e)
@@ -407,6 +438,8 @@ class KInterp:
                 return GExpr.of(Poly.sym("pi"))
             if s in ("np.nan", "numpy.nan"):
                 return GExpr.of(Poly.sym("NAN"))
+            if s in self.consts:
+                return self._lift_const(self.consts[s])
             if e.attr == "shape":
                 return [LenOf(U(e.value)), LenOf(U(e.value) + ".cols")]
             if e.attr in ("values", "T"):
@@ -489,6 +522,8 @@ class KInterp:
         if isinstance(e, ast.ListComp) and len(e.generators) == 1 and isinstance(e.generators[0].iter, ast.Call) \
                 and U(e.generators[0].iter.func) == "range" and isinstance(e.generators[0].iter.args[0], ast.Constant):
             return [self.eval(e.elt, st) for _ in range(e.generators[0].iter.args[0].value)]
+        if isinstance(e, ast.Dict) and all(isinstance(k, ast.Constant) for k in e.keys):
+            return PyVal({k.value: self.eval(v, st) for k, v in zip(e.keys, e.values)})
         if isinstance(e, ast.Starred):
             raise Unsupported("starred expression %s" % U(e))
         raise Unsupported("expression form %s" % U(e)[:70])
@@ -595,7 +630,7 @@ class KInterp:
                 if isinstance(base, PitRow):
                     raise Unsupported("double row selection %s" % U(e))
                 rk = self._compose_row(base, rk)
-                return GExpr.of(col_atom(pit, rk, colr[0], colr[1]))
+                return self._pit_read(pit, rk, colr)
             if isinstance(sl.elts[1], ast.Slice) and sl.elts[1].lower is None and sl.elts[1].upper is None:
                 # pit[rows, :] -> a row view
                 base = self.eval(base_node, st)
@@ -607,7 +642,7 @@ class KInterp:
             colr = self._resolve_col(sl, st)
             if colr is None:
                 raise Unsupported("column %s of a pit row is not an idx constant" % U(sl))
-            return GExpr.of(col_atom(base.pit, base.rowkey, colr[0], colr[1]))
+            return self._pit_read(base.pit, base.rowkey, colr)
         colr = self._resolve_col(sl, st)
         if colr is not None and isinstance(base, GExpr):
             # 1-d lookup arrays indexed by a column constant (branch_pit_old_lookup[TOUTINIT])
@@ -656,6 +691,24 @@ class KInterp:
 
     def _compose_row(self, base, rk):
         return rk
+
+    def _pit_read(self, pit, rk, colr):
+        k = (pit, rk, colr[0], colr[1])
+        if k in self.pit:
+            return self.pit[k]
+        if rk != OWN and (pit, OWN, colr[0], colr[1]) in self.pit:
+            raise Unsupported("gather from pit column %s.%s after it was written" % (pit, colr[1]))
+        return GExpr.of(col_atom(pit, rk, colr[0], colr[1]))
+
+    def _pit_write(self, pit, rk, colr, v, G, mask):
+        k = (pit, rk, colr[0], colr[1])
+        old = self.pit.get(k, GExpr.of(col_atom(pit, rk, colr[0], colr[1])))
+        cond = G if mask is None else (G & mask)
+        if isinstance(v, BExpr):
+            v = self._as_num(v)
+        self.pit[k] = v if cond.is_true() else self._select(cond, v, old)
+        if k not in self.pit_order:
+            self.pit_order.append(k)
 
     def _is_param_sym(self, g):
         p = g.plain()
@@ -722,7 +775,7 @@ class KInterp:
             if short in ("any", "all"):
                 return AnyOf(self._as_bool(v), short)
             raise Unsupported("reduction %s" % U(e))
-        if isnp or f in ("abs", "max", "min", "len", "range", "bool", "int", "float"):
+        if isnp or f in ("abs", "max", "min", "len", "range", "bool", "int", "float", "where"):
             if short in ("abs", "absolute", "fabs"):
                 return num(0).map1(lambda p: apply_fn("abs", [p]))
             if short in ("maximum", "max", "minimum", "min") and len(args) == 2:
@@ -824,11 +877,12 @@ class KInterp:
                 a2[p] = self.eval(a, st)
             for k, v in kw.items():
                 a2[k] = self.eval(v, st)
-            sub = KInterp(self.ix, self.consts, self.call_handlers, self.inline, self.opaque_calls)
+            sub = KInterp(self.ix, self.consts, self.call_handlers, self.inline, self.opaque_calls, self.free_syms)
+            sub.pit, sub.pit_order = self.pit, self.pit_order
             k = sub.run(g, a2)
             self.notes.extend(sub.notes)
             if k.early:
-                raise Unsupported("inlined helper %s has early returns" % g.qualname)
+                self.notes.append("early return of inlined %s treated as shortcut" % g.name)
             if len(k.outputs) == 1:
                 return k.outputs[0]
             return list(k.outputs)
@@ -843,7 +897,7 @@ class KInterp:
                     parts.append(self._as_num(v))
             for k_, v_ in sorted(kw.items()):
                 v = self._as_num(self.eval(v_, st))
-                parts.append(v * GExpr.of(Poly.sym("kw", k_)))
+                parts.append(v.map1(lambda p_, k_=k_: apply_fn("kw:" + k_, [p_])))
             name = f
             if isinstance(e.func, ast.Attribute) and not isinstance(e.func.value, ast.Name):
                 name = "<expr>." + short
